@@ -136,6 +136,7 @@ Definition sfilter_of (x : sx) : option sfilter :=
   match x with
   | SL [t; b; p] =>
     if is_id t "flate" then do b <- as_N b; do p <- pred_of p; Some (SfFlate b p)
+    else if is_id t "ahx" then do u <- as_bool b; do ws <- as_Ns p; Some (SfAHx u ws)
     else if is_id t "a85flate" then do b <- as_N b; do p <- pred_of p; Some (SfA85Flate b p)
     else None
   | _ => if is_id x "none" then Some SfNone else if is_id x "a85" then Some SfA85 else None
@@ -295,7 +296,7 @@ Definition run (x : sx) : sx :=
       | Some st, Some ad =>
         match ref_write st ad with
         | Some f => SL [sx_id "file"; sx_bytes f; expected_sx ad (size_of st ad);
-                        SL [sx_id "known"; sx_bool (Known_raw_eol st ad); sx_bool (Known_deep_parens ad)]]
+                        SL [sx_id "known"; sx_bool (Known_raw_eol st ad); sx_bool (Known_deep_parens ad); sx_bool (Known_asciihex st)]]
         | None => SL [sx_id "none"]
         end
       | None, _ => sx_id "badstyle"
